@@ -188,6 +188,26 @@ func checkC07(c *Ctx, r *Report) {
 	}
 	r.Floor("T1-clock", clockInGate, 1)
 
+	// ---- T2: the final order of the plan is total (rule of C05) ----
+	r.Floor("order-D6-plain", importRules(c, r, checkC05, "order-", []string{"D6-plain"}, nil), 1)
+
+	// ---- T1-fileinfo: headers are not built from a stat of the source ----
+	nfi := 0
+	for _, fn := range fns {
+		forEachInstr(fn, func(in ssa.Instruction) {
+			call, ok := in.(*ssa.Call)
+			if !ok || !calleeIs(call, "archive/tar", "", "FileInfoHeader") {
+				return
+			}
+			nfi++
+			arg := stripIface(call.Call.Args[0])
+			okT := isContentPtr(arg.Type())
+			r.Check(okT, "T1-fileinfo", fmt.Sprintf("tar.FileInfoHeader#%d in %s is given the entry", nfi, c.funcKey(fn)), c.instrPos(call),
+				"the header is built from an os.FileInfo of the source instead of the prepared entry: access and change times (written as PAX atime/ctime records), uid and gid of the build machine end up in the package")
+		})
+	}
+	r.Floor("T1-fileinfo", nfi, 2)
+
 	// ---- T6 no state carried from one build to the next ----
 	checkNoCarriedState(c, r, "T6-no-carried-state")
 
